@@ -13,10 +13,8 @@ open HickoryVerif HickoryVerif.Cache HickoryVerif.Spec.CacheTtl
 
 /-! ### configurations -/
 
-/-- every configured `TtlBounds` has `min ≤ max` (as `Duration`s) … -/
+/-- every configured `TtlBounds` has `min ≤ max` (both pairs, as `Duration`s, defaults filled in) -/
 def DurOK (cfg : TtlConfig) : Prop := cfg.durOK = true
-/-- … and the derived whole-second `u32` pair is ordered as well. -/
-def SecsOK (cfg : TtlConfig) : Prop := cfg.secsOK = true
 
 theorem lookupBounds_mem {l : List (Nat × Bounds)} {ty : Nat} {b : Bounds}
     (h : lookupBounds l ty = some b) : ∃ k, (k, b) ∈ l := by
@@ -44,13 +42,6 @@ theorem durOK_for {cfg : TtlConfig} (h : DurOK cfg) (ty : Nat) : (cfg.boundsFor 
   · rw [e]; exact h.1
   · exact h.2 _ hk
 
-theorem secsOK_for {cfg : TtlConfig} (h : SecsOK cfg) (ty : Nat) : (cfg.boundsFor ty).secsOK = true := by
-  unfold SecsOK TtlConfig.secsOK at h
-  simp only [Bool.and_eq_true, List.all_eq_true] at h
-  rcases boundsFor_cases cfg ty with e | ⟨k, hk⟩
-  · rw [e]; exact h.1
-  · exact h.2 _ hk
-
 theorem posBounds_le {cfg : TtlConfig} (h : DurOK cfg) (ty : Nat) :
     (cfg.posBounds ty).1 ≤ (cfg.posBounds ty).2 := by
   have := durOK_for h ty
@@ -63,16 +54,22 @@ theorem negBounds_le {cfg : TtlConfig} (h : DurOK cfg) (ty : Nat) :
   simp only [Bounds.durOK, Bool.and_eq_true, decide_eq_true_eq] at this
   exact this.2
 
-theorem posBoundsSecs_le {cfg : TtlConfig} (h : SecsOK cfg) (ty : Nat) :
-    (cfg.posBoundsSecs ty).1 ≤ (cfg.posBoundsSecs ty).2 := by
-  have := secsOK_for h ty
-  simp only [Bounds.secsOK, decide_eq_true_eq] at this
-  exact this
-
 theorem secsU32_le (d : Nat) : secsU32 d ≤ U32MAX := by
   unfold secsU32; split
   · assumption
-  · decide
+  · exact Nat.le_refl _
+
+/-- the saturating conversion to whole `u32` seconds is monotone … -/
+theorem secsU32_mono {a b : Nat} (h : a ≤ b) : secsU32 a ≤ secsU32 b := by
+  unfold secsU32
+  have : a / NS ≤ b / NS := Nat.div_le_div_right h
+  split <;> split <;> omega
+
+/-- … so an ordered `Duration` pair always gives an ordered `u32` pair for the per-record clamp. -/
+theorem posBoundsSecs_le {cfg : TtlConfig} (h : DurOK cfg) (ty : Nat) :
+    (cfg.posBoundsSecs ty).1 ≤ (cfg.posBoundsSecs ty).2 := by
+  unfold TtlConfig.posBoundsSecs
+  exact secsU32_mono (posBounds_le h ty)
 
 /-! ### the code's clamp is the mathematical clamp when `min ≤ max` -/
 
@@ -94,12 +91,12 @@ theorem clampM_mono {x y : Nat} (mn mx : Nat) (h : x ≤ y) : clampM x mn mx ≤
 
 /-! ### `insert` computes the specified stored result and lifetime -/
 
-theorem clampRec_ok {cfg : TtlConfig} (h : SecsOK cfg) (r : Rec) :
+theorem clampRec_ok {cfg : TtlConfig} (h : DurOK cfg) (r : Rec) :
     clampRec cfg r = .ok (storedRec cfg r) := by
   unfold clampRec storedRec storedTtl
   simp [clamp_ok (posBoundsSecs_le h r.rtype)]
 
-theorem clampRecs_ok {cfg : TtlConfig} (h : SecsOK cfg) (rs : List Rec) :
+theorem clampRecs_ok {cfg : TtlConfig} (h : DurOK cfg) (rs : List Rec) :
     clampRecs cfg rs = .ok (rs.map (storedRec cfg)) := by
   induction rs with
   | nil => rfl
@@ -116,10 +113,10 @@ theorem minOpt_eq (l : List Nat) : minOpt l = l.min? := by
       simp only [Option.elim]
       congr 1
 
-theorem clampPositive_ok {cfg : TtlConfig} (hd : DurOK cfg) (hs : SecsOK cfg) (qt : Nat) (m : Msg) :
+theorem clampPositive_ok {cfg : TtlConfig} (hd : DurOK cfg) (qt : Nat) (m : Msg) :
     clampPositive cfg qt m = .ok (posLife cfg qt m, storedMsg cfg m) := by
   unfold clampPositive
-  simp only [clampRecs_ok hs, Outcome.bind_ok, clamp_ok (posBounds_le hd qt), minOpt_eq]
+  simp only [clampRecs_ok hd, Outcome.bind_ok, clamp_ok (posBounds_le hd qt), minOpt_eq]
   rfl
 
 theorem negTtlOf_ok {cfg : TtlConfig} (hd : DurOK cfg) (qt : Nat) (n : NoRec) :
@@ -129,21 +126,46 @@ theorem negTtlOf_ok {cfg : TtlConfig} (hd : DurOK cfg) (qt : Nat) (n : NoRec) :
   | none => rfl
   | some t => simp [clamp_ok (negBounds_le hd qt)]
 
+/-- The instant up to which an entry inserted at `t` is served: `t + L`; when that is not a
+representable `Instant` (an `L` of billions of years), the earlier `t + u32::MAX s`. -/
+def expiry (cfg : TtlConfig) (q : Query) (p : Res × Nat) : Nat :=
+  if p.2 + lifetime cfg q.qtype p.1 < INSTANT_LIMIT then p.2 + lifetime cfg q.qtype p.1
+  else p.2 + U32MAX * NS
+
 /-- The entry the specification expects for an insert of `r` at instant `t`. -/
 def entryOf (cfg : TtlConfig) (q : Query) (p : Res × Nat) : Entry :=
-  { result := stored cfg p.1, t0 := p.2, validUntil := p.2 + lifetime cfg q.qtype p.1 }
+  { result := stored cfg p.1, t0 := p.2, validUntil := expiry cfg q p }
 
-theorem insert_ok {cfg : TtlConfig} (hd : DurOK cfg) (hs : SecsOK cfg) (s : State) (q : Query)
-    (r : Res) (t : Nat) (hc : cacheable r = true) (hr : t + lifetime cfg q.qtype r < INSTANT_LIMIT) :
+/-- an insert instant that leaves room for the fall-back `now + u32::MAX s` -/
+def InstantOK (t : Nat) : Prop := t + U32MAX * NS < INSTANT_LIMIT
+
+theorem store_ok (s : State) (q : Query) (r : Res) (t ttl : Nat) (ht : InstantOK t) :
+    store s q r t ttl = .ok (s.put q ⟨r, t, if t + ttl < INSTANT_LIMIT then t + ttl else t + U32MAX * NS⟩) := by
+  unfold store instantAdd
+  unfold InstantOK at ht
+  by_cases h : t + ttl < INSTANT_LIMIT
+  · simp [h]
+  · simp [h, ht]
+
+theorem insert_ok {cfg : TtlConfig} (hd : DurOK cfg) (s : State) (q : Query)
+    (r : Res) (t : Nat) (hc : cacheable r = true) (ht : InstantOK t) :
     Cache.insert cfg s q r t = .ok (s.put q (entryOf cfg q (r, t))) := by
   cases r with
   | pos m =>
-    simp only [lifetime] at hr
-    simp [Cache.insert, clampPositive_ok hd hs, store, instantAdd, hr, entryOf, stored, lifetime]
+    simp only [Cache.insert, clampPositive_ok hd, Outcome.bind_ok, store_ok _ _ _ _ _ ht]
+    rfl
   | neg n =>
-    simp only [lifetime] at hr
-    simp [Cache.insert, negTtlOf_ok hd, store, instantAdd, hr, entryOf, stored, lifetime]
+    simp only [Cache.insert, negTtlOf_ok hd, Outcome.bind_ok, store_ok _ _ _ _ _ ht]
+    rfl
   | other k => simp [cacheable] at hc
+
+theorem expiry_le {cfg : TtlConfig} {q : Query} {p : Res × Nat} (ht : InstantOK p.2) :
+    expiry cfg q p ≤ p.2 + lifetime cfg q.qtype p.1 := by
+  unfold expiry
+  unfold InstantOK at ht
+  split
+  · exact Nat.le_refl _
+  · omega
 
 /-- **Transient errors are never cached**: inserting anything but a positive answer or
 `NoRecordsFound` leaves the cache exactly as it was (for every configuration, even a broken one). -/
@@ -216,23 +238,23 @@ theorem nodup_put {s : State} (h : NoDupKeys s) (q : Query) (e : Entry) : NoDupK
 
 /-! ### histories -/
 
-/-- The expiry instant of every cacheable insert of the history is a representable `Instant`. -/
-def Representable (cfg : TtlConfig) (ops : List Op) : Prop :=
-  ∀ q r t, Op.ins q r t ∈ ops → t + lifetime cfg q.qtype r < INSTANT_LIMIT
+/-- Every insert of the history happens at an instant that leaves `u32::MAX s` of room in
+`Instant`'s range (a condition on the instants only; any real clock satisfies it). -/
+def TimesSane (ops : List Op) : Prop := ∀ q r t, Op.ins q r t ∈ ops → InstantOK t
 
 /-- state `s` holds exactly the entries that history summary `h` prescribes -/
 def Agrees (cfg : TtlConfig) (s : State) (h : Hist) : Prop :=
   ∀ q, s.lookup q = (h q).map (entryOf cfg q)
 
-theorem agrees_step {cfg : TtlConfig} (hd : DurOK cfg) (hs : SecsOK cfg) {s : State} {h : Hist}
+theorem agrees_step {cfg : TtlConfig} (hd : DurOK cfg) {s : State} {h : Hist}
     (ha : Agrees cfg s h) (op : Op)
-    (hr : ∀ q r t, op = .ins q r t → t + lifetime cfg q.qtype r < INSTANT_LIMIT) :
+    (hr : ∀ q r t, op = .ins q r t → InstantOK t) :
     Agrees cfg (stepOp cfg s op) (trackOp h op) := by
   cases op with
   | ins q r t =>
     by_cases hc : cacheable r = true
     · intro q'
-      simp only [stepOp, insert_ok hd hs s q r t hc (hr q r t rfl), trackOp, hc, if_true, lookup_put]
+      simp only [stepOp, insert_ok hd s q r t hc (hr q r t rfl), trackOp, hc, if_true, lookup_put]
       by_cases hq : q' = q
       · simp [hq]
       · simp [hq, ha q']
@@ -249,8 +271,8 @@ theorem agrees_step {cfg : TtlConfig} (hd : DurOK cfg) (hs : SecsOK cfg) {s : St
     · simp [hq, lookup_erase_self]
     · simp [hq, lookup_erase_ne s hq, ha q']
 
-theorem agrees_run {cfg : TtlConfig} (hd : DurOK cfg) (hs : SecsOK cfg) (ops : List Op) :
-    ∀ {s : State} {h : Hist}, Agrees cfg s h → Representable cfg ops →
+theorem agrees_run {cfg : TtlConfig} (hd : DurOK cfg) (ops : List Op) :
+    ∀ {s : State} {h : Hist}, Agrees cfg s h → TimesSane ops →
       Agrees cfg (run cfg s ops) (ops.foldl trackOp h) := by
   induction ops with
   | nil => intro s h ha _; exact ha
@@ -258,22 +280,24 @@ theorem agrees_run {cfg : TtlConfig} (hd : DurOK cfg) (hs : SecsOK cfg) (ops : L
     intro s h ha hr
     simp only [run, List.foldl_cons]
     apply ih
-    · exact agrees_step hd hs ha op (fun q r t e => hr q r t (by simp [e]))
+    · exact agrees_step hd ha op (fun q r t e => hr q r t (by simp [e]))
     · intro q r t hm; exact hr q r t (List.mem_cons_of_mem _ hm)
 
 /-- **The invariant, lifted to every reachable state**: after any history the cache holds for each
 query exactly the entry of its last cacheable insert since the last clear. -/
-theorem lookup_run {cfg : TtlConfig} (hd : DurOK cfg) (hs : SecsOK cfg) (ops : List Op)
-    (hr : Representable cfg ops) (q : Query) :
+theorem lookup_run {cfg : TtlConfig} (hd : DurOK cfg) (ops : List Op)
+    (hr : TimesSane ops) (q : Query) :
     (run cfg [] ops).lookup q = (track ops q).map (entryOf cfg q) :=
-  agrees_run hd hs ops (s := []) (h := fun _ => none) (fun _ => rfl) hr q
+  agrees_run hd ops (s := []) (h := fun _ => none) (fun _ => rfl) hr q
 
 theorem store_cases (s : State) (q : Query) (r : Res) (now ttl : Nat) :
     (∃ e, store s q r now ttl = .ok (s.put q e)) ∨ store s q r now ttl = .panic "instant" := by
   unfold store instantAdd
   split
   · left; exact ⟨_, rfl⟩
-  · right; rfl
+  · split
+    · left; exact ⟨_, rfl⟩
+    · right; rfl
 
 /-- an insert either leaves the cache alone (ignored error, or panic before the map is touched)
 or puts one entry under the inserted key -/
@@ -320,26 +344,6 @@ theorem nodup_run (cfg : TtlConfig) (ops : List Op) :
     | clear => simp [stepOp, clear, NoDupKeys]
     | clearQuery q => exact nodup_erase h q
 
-/-- what `get` answers after a history, in terms of the history alone -/
-theorem get_run {cfg : TtlConfig} (hd : DurOK cfg) (hs : SecsOK cfg) (ops : List Op)
-    (hr : Representable cfg ops) (q : Query) (now : Nat) (res : Res)
-    (hg : Cache.get (run cfg [] ops) q now = some res) :
-    ∃ r0 t0, track ops q = some (r0, t0) ∧ now ≤ t0 + lifetime cfg q.qtype r0 ∧
-      res = (stored cfg r0).decr (elapsedOf t0 now) := by
-  unfold Cache.get at hg
-  rw [lookup_run hd hs ops hr q] at hg
-  cases ht : track ops q with
-  | none => simp [ht] at hg
-  | some p =>
-    obtain ⟨r0, t0⟩ := p
-    simp only [ht, Option.map_some, Entry.isCurrent, entryOf, decide_eq_true_eq] at hg
-    split at hg
-    · rename_i hle
-      refine ⟨r0, t0, rfl, hle, ?_⟩
-      simp only [Option.some.injEq] at hg
-      rw [← hg]; rfl
-    · simp at hg
-
 /-- the tracked insert really is an operation of the history -/
 theorem track_mem (ops : List Op) : ∀ (h : Hist) (q : Query) (r : Res) (t : Nat),
     ops.foldl trackOp h q = some (r, t) → h q = some (r, t) ∨ (Op.ins q r t ∈ ops ∧ cacheable r = true) := by
@@ -374,27 +378,49 @@ theorem track_ins {ops : List Op} {q : Query} {r : Res} {t : Nat} (h : track ops
   · simp at h1
   · exact h1
 
+/-- what `get` answers after a history, in terms of the history alone -/
+theorem get_run {cfg : TtlConfig} (hd : DurOK cfg) (ops : List Op)
+    (hr : TimesSane ops) (q : Query) (now : Nat) (res : Res)
+    (hg : Cache.get (run cfg [] ops) q now = some res) :
+    ∃ r0 t0, track ops q = some (r0, t0) ∧ now ≤ expiry cfg q (r0, t0) ∧
+      now ≤ t0 + lifetime cfg q.qtype r0 ∧ res = (stored cfg r0).decr (elapsedOf t0 now) := by
+  unfold Cache.get at hg
+  rw [lookup_run hd ops hr q] at hg
+  cases ht : track ops q with
+  | none => simp [ht] at hg
+  | some p =>
+    obtain ⟨r0, t0⟩ := p
+    simp only [ht, Option.map_some, Entry.isCurrent, entryOf, decide_eq_true_eq] at hg
+    split at hg
+    · rename_i hle
+      have hok : InstantOK t0 := hr q r0 t0 (track_ins ht).1
+      refine ⟨r0, t0, rfl, hle, Nat.le_trans hle (expiry_le (p := (r0, t0)) hok), ?_⟩
+      simp only [Option.some.injEq] at hg
+      rw [← hg]; rfl
+    · simp at hg
+
 /-! ### the property theorems -/
 
 /-- **Never stale.**  For every configuration with ordered bounds and every history: if
 `get(q, now)` answers, then the last cacheable insert `(r0, t0)` of `q` since the last clear
 exists and `now ≤ t0 + L`, `L = lifetime cfg q.qtype r0` being the `L` of the property. -/
-theorem never_stale {cfg : TtlConfig} (hd : DurOK cfg) (hs : SecsOK cfg) (ops : List Op)
-    (hr : Representable cfg ops) (q : Query) (now : Nat) (res : Res)
+theorem never_stale {cfg : TtlConfig} (hd : DurOK cfg) (ops : List Op)
+    (hr : TimesSane ops) (q : Query) (now : Nat) (res : Res)
     (hg : Cache.get (run cfg [] ops) q now = some res) :
     ∃ r0 t0, track ops q = some (r0, t0) ∧ Op.ins q r0 t0 ∈ ops ∧
       now ≤ t0 + lifetime cfg q.qtype r0 := by
-  obtain ⟨r0, t0, ht, hle, _⟩ := get_run hd hs ops hr q now res hg
+  obtain ⟨r0, t0, ht, _, hle, _⟩ := get_run hd ops hr q now res hg
   exact ⟨r0, t0, ht, (track_ins ht).1, hle⟩
 
 /-- Converse of `never_stale` (not demanded by the property; it shows the theorems do not hold
-vacuously because the model would never answer): up to and including `t0 + L` the entry is served. -/
-theorem served_while_fresh {cfg : TtlConfig} (hd : DurOK cfg) (hs : SecsOK cfg) (ops : List Op)
-    (hr : Representable cfg ops) (q : Query) (now : Nat) (r0 : Res) (t0 : Nat)
-    (ht : track ops q = some (r0, t0)) (hle : now ≤ t0 + lifetime cfg q.qtype r0) :
+vacuously because the model would never answer): up to and including its expiry instant — `t0 + L`
+whenever that is a representable `Instant` — the entry is served. -/
+theorem served_while_fresh {cfg : TtlConfig} (hd : DurOK cfg) (ops : List Op)
+    (hr : TimesSane ops) (q : Query) (now : Nat) (r0 : Res) (t0 : Nat)
+    (ht : track ops q = some (r0, t0)) (hle : now ≤ expiry cfg q (r0, t0)) :
     Cache.get (run cfg [] ops) q now = some ((stored cfg r0).decr (elapsedOf t0 now)) := by
   unfold Cache.get
-  rw [lookup_run hd hs ops hr q, ht]
+  rw [lookup_run hd ops hr q, ht]
   simp only [Option.map_some, Entry.isCurrent, entryOf, decide_eq_true_eq, if_pos hle]
   rfl
 
@@ -425,14 +451,14 @@ theorem posLife_le_record {cfg : TtlConfig} (qt : Nat) (m : Msg) (r : Rec)
 
 /-- **Negative answers are bounded.**  A served negative answer is at most its negative TTL, clamped to
 the negative bounds of the query type, old (the negative minimum when it carries no TTL). -/
-theorem negative_bounded {cfg : TtlConfig} (hd : DurOK cfg) (hs : SecsOK cfg) (ops : List Op)
-    (hr : Representable cfg ops) (q : Query) (now : Nat) (n : NoRec)
+theorem negative_bounded {cfg : TtlConfig} (hd : DurOK cfg) (ops : List Op)
+    (hr : TimesSane ops) (q : Query) (now : Nat) (n : NoRec)
     (hg : Cache.get (run cfg [] ops) q now = some (.neg n)) :
     ∃ n0 t0, track ops q = some (.neg n0, t0) ∧ now ≤ t0 + negLife cfg q.qtype n0.negTtl ∧
       negLife cfg q.qtype n0.negTtl ≤ (cfg.negBounds q.qtype).2 ∧
       (∀ ttl, n0.negTtl = some ttl →
         negLife cfg q.qtype n0.negTtl = max (cfg.negBounds q.qtype).1 (min (ttl * NS) (cfg.negBounds q.qtype).2)) := by
-  obtain ⟨r0, t0, ht, hle, hres⟩ := get_run hd hs ops hr q now _ hg
+  obtain ⟨r0, t0, ht, _, hle, hres⟩ := get_run hd ops hr q now _ hg
   cases r0 with
   | pos m => simp [stored, Res.decr] at hres
   | other k => simp [stored, Res.decr] at hres
@@ -446,7 +472,7 @@ theorem negative_bounded {cfg : TtlConfig} (hd : DurOK cfg) (hs : SecsOK cfg) (o
 
 /-! #### exact TTL arithmetic -/
 
-theorem storedTtl_le {cfg : TtlConfig} (hs : SecsOK cfg) {r : Rec} (h : Rec.WF r) :
+theorem storedTtl_le {cfg : TtlConfig} (hs : DurOK cfg) {r : Rec} (h : Rec.WF r) :
     storedTtl cfg r ≤ U32MAX := by
   unfold storedTtl clampM
   have h1 := posBoundsSecs_le hs r.rtype
@@ -467,7 +493,7 @@ theorem recs_decr_eq {l : List Rec} {t0 now : Nat} (h : ∀ r ∈ l, Rec.WF r) :
   simp only [Rec.decr]
   rw [sub_elapsedOf (h r hr)]
 
-theorem stored_wf {cfg : TtlConfig} (hs : SecsOK cfg) {l : List Rec} (h : ∀ r ∈ l, Rec.WF r) :
+theorem stored_wf {cfg : TtlConfig} (hs : DurOK cfg) {l : List Rec} (h : ∀ r ∈ l, Rec.WF r) :
     ∀ r ∈ l.map (storedRec cfg), Rec.WF r := by
   intro r hr
   obtain ⟨r', hr', rfl⟩ := List.mem_map.1 hr
@@ -481,7 +507,7 @@ theorem nsdata_decr_eq {d : NsData} {t0 now : Nat} (h : NsData.WF d) :
   rw [sub_elapsedOf h.1]
 
 /-- with `u32` TTLs the saturation of the elapsed seconds at `u32::MAX` is invisible -/
-theorem decr_elapsedOf {cfg : TtlConfig} (hs : SecsOK cfg) {r0 : Res} (hwf : ResWF r0) (t0 now : Nat) :
+theorem decr_elapsedOf {cfg : TtlConfig} (hs : DurOK cfg) {r0 : Res} (hwf : ResWF r0) (t0 now : Nat) :
     (stored cfg r0).decr (elapsedOf t0 now) = (stored cfg r0).decr (elapsed t0 now) := by
   cases r0 with
   | other k => rfl
@@ -521,13 +547,13 @@ theorem decr_elapsedOf {cfg : TtlConfig} (hs : SecsOK cfg) {r0 : Res} (hwf : Res
 /-- **Exact TTLs.**  Whatever `get` returns is the stored result (record TTLs clamped per record
 type, negative answers as received) with every TTL field lowered by exactly the whole seconds
 elapsed since the insert, floored at zero (`Nat` subtraction). -/
-theorem ttl_exact {cfg : TtlConfig} (hd : DurOK cfg) (hs : SecsOK cfg) (ops : List Op)
-    (hr : Representable cfg ops) (hwf : HistWF ops) (q : Query) (now : Nat) (res : Res)
+theorem ttl_exact {cfg : TtlConfig} (hd : DurOK cfg) (ops : List Op)
+    (hr : TimesSane ops) (hwf : HistWF ops) (q : Query) (now : Nat) (res : Res)
     (hg : Cache.get (run cfg [] ops) q now = some res) :
     ∃ r0 t0, track ops q = some (r0, t0) ∧ res = (stored cfg r0).decr (elapsed t0 now) := by
-  obtain ⟨r0, t0, ht, _, hres⟩ := get_run hd hs ops hr q now res hg
+  obtain ⟨r0, t0, ht, _, _, hres⟩ := get_run hd ops hr q now res hg
   refine ⟨r0, t0, ht, ?_⟩
-  rw [hres, decr_elapsedOf hs (hwf q r0 t0 (track_ins ht).1)]
+  rw [hres, decr_elapsedOf hd (hwf q r0 t0 (track_ins ht).1)]
 
 /-- what `decr` means for one record of a positive answer -/
 theorem ttl_exact_record (cfg : TtlConfig) (m : Msg) (e : Nat) :
@@ -737,25 +763,16 @@ example : fromResponse { rcode := 3, truncated := true } = .ok := by decide
 
 /-! #### panics -/
 
-/-
-Full statement asked for ("no panic whenever every configured bound has `min ≤ max`"):
-
-    theorem no_panic (cfg) (h : DurOK cfg) (s q r t) : ∀ site, Cache.insert cfg s q r t ≠ .panic site
-
-It is FALSE for the code as it is, for two reasons exhibited below by kernel-checked
-counter-examples: (1) the per-record clamp uses whole seconds converted with
-`u32::try_from(..).unwrap_or(MAX_TTL)`, which can invert an ordered `Duration` pair
-(`no_panic_counterexample_secs`); (2) `now + ttl` overflows `Instant` for a huge lifetime
-(`no_panic_counterexample_instant`).  The partial version carries the two hypotheses the proof forces.
--/
-
-/-- **No panic** (partial): with ordered `Duration` bounds, ordered derived `u32` second bounds and a
-representable expiry instant, `insert` never panics — it returns a new state. -/
-theorem no_panic_partial {cfg : TtlConfig} (hd : DurOK cfg) (hs : SecsOK cfg) (s : State) (q : Query)
-    (r : Res) (t : Nat) (hr : t + lifetime cfg q.qtype r < INSTANT_LIMIT) :
-    ∃ s', Cache.insert cfg s q r t = .ok s' := by
+/-- **No panic**, full strength over configurations: for *every* `TtlConfig` whose bound pairs are
+ordered (`min ≤ max`, however large — the repaired code saturates the whole-second conversion and
+falls back when `now + ttl` is not representable), every cache state, query and result, `insert`
+returns normally.  The only remaining hypothesis is about the instant passed in, not about the
+configuration: `now` must leave `u32::MAX s` of room in `Instant`'s range (see
+`panic_when_now_at_instant_limit`). -/
+theorem no_panic {cfg : TtlConfig} (hd : DurOK cfg) (s : State) (q : Query) (r : Res) (t : Nat)
+    (ht : InstantOK t) : ∃ s', Cache.insert cfg s q r t = .ok s' := by
   by_cases hc : cacheable r = true
-  · exact ⟨_, insert_ok hd hs s q r t hc hr⟩
+  · exact ⟨_, insert_ok hd s q r t hc ht⟩
   · exact ⟨s, transient_not_cached cfg s q r t (by simpa using hc)⟩
 
 /- `get` has no panicking operation at all (saturating subtractions, a comparison): in the model it
@@ -769,24 +786,33 @@ def cfgSecsInverted : TtlConfig :=
 def cfgHuge : TtlConfig :=
   { default := { posMin := some (9223372036854775808 * NS), posMax := some (9223372036854775808 * NS) } }
 
+/-- global `positive_max_ttl = 2^33 s` -/
+def cfgBigMax : TtlConfig := { default := { posMax := some (8589934592 * NS) } }
+
 /-- global `positive_min_ttl = 2 days`, `positive_max_ttl` unset (defaults to one day) -/
 def cfgMinGtMax : TtlConfig := { default := { posMin := some (172800 * NS) } }
 
 def qA : Query := { id := 0, qtype := 1 }
 def msgA : Msg := { answers := [{ rtype := 1, ttl := 300, pid := 0 }] }
 
-/-- counter-example (1): `min ≤ max` holds, the insert panics in the per-record `u32::clamp`. -/
-theorem no_panic_counterexample_secs :
-    cfgSecsInverted.durOK = true ∧ cfgSecsInverted.secsInverted = true ∧
-    Cache.insert cfgSecsInverted [] qA (.pos msgA) 0 = .panic "clamp" := by decide
+/-- Regression of the repaired finding (hickory-dns 617ee15; before it these three were a `clamp`
+panic, a TTL cut to 86 400 and an `Instant` overflow panic): (a) bounds `(100 000 s, 2^32 s)` —
+the insert succeeds and the record is stored with the minimum; (b) `max = 2^33 s` — a TTL of
+100 000 s stays 100 000; (c) `min = max = 2^63 s` — the insert succeeds, the entry is served
+`u32::MAX s` later and no longer 1 ns after that. -/
+theorem regression_bounds_over_u32 :
+    cfgSecsInverted.durOK = true ∧
+    Cache.get (run cfgSecsInverted [] [.ins qA (.pos msgA) 0]) qA 0 =
+      some (.pos { answers := [{ rtype := 1, ttl := 100000, pid := 0 }] }) ∧
+    storedTtl cfgBigMax { rtype := 1, ttl := 100000, pid := 0 } = 100000 ∧
+    cfgHuge.durOK = true ∧
+    (Cache.insert cfgHuge [] qA (.pos msgA) 0).isOk = true ∧
+    (Cache.get (run cfgHuge [] [.ins qA (.pos msgA) 0]) qA (U32MAX * NS)).isSome = true ∧
+    Cache.get (run cfgHuge [] [.ins qA (.pos msgA) 0]) qA (U32MAX * NS + 1) = none := by decide
 
-/-- counter-example (2): `min ≤ max` holds, `now + ttl` overflows `Instant`. -/
-theorem no_panic_counterexample_instant :
-    cfgHuge.durOK = true ∧ cfgHuge.secsOK = true ∧
-    Cache.insert cfgHuge [] qA (.pos msgA) 0 = .panic "instant" := by decide
-
-/-- outside the hypothesis: `min > max` (here simply a minimum above the default maximum of one
-day) makes every positive insert panic, even of an empty message. -/
+/-- outside the quantifier of the property (documented observation, class `C15.bounds-min-gt-max`):
+`min > max` — here simply a minimum above the default maximum of one day — makes every positive
+insert panic in `Ord::clamp`, even of an empty message. -/
 theorem panic_when_min_gt_max :
     cfgMinGtMax.minGtMax = true ∧
     Cache.insert cfgMinGtMax [] qA (.pos msgA) 0 = .panic "clamp" ∧
@@ -794,137 +820,30 @@ theorem panic_when_min_gt_max :
 
 /-- … whereas a negative answer without a negative TTL never reaches a `clamp`. -/
 theorem neg_without_ttl_never_clamps (cfg : TtlConfig) (s : State) (q : Query) (n : NoRec) (t : Nat)
-    (h : n.negTtl = none) (hr : t + (cfg.negBounds q.qtype).1 < INSTANT_LIMIT) :
+    (h : n.negTtl = none) (ht : InstantOK t) :
     ∃ s', Cache.insert cfg s q (.neg n) t = .ok s' := by
-  simp [Cache.insert, negTtlOf, h, store, instantAdd, hr]
+  simp [Cache.insert, negTtlOf, h, store_ok _ _ _ _ _ ht]
 
-/-! #### the known-finding class `C15.bounds-over-u32` delimits the partial hypotheses -/
+/-- why `no_panic` needs `InstantOK`: with a lifetime of 2^63 s and `now` within `u32::MAX s` of
+the end of `Instant`'s range the fall-back addition overflows. -/
+theorem panic_when_now_at_instant_limit :
+    cfgHuge.durOK = true ∧
+    Cache.insert cfgHuge [] qA (.pos msgA) (INSTANT_LIMIT - 1) = .panic "instant" := by decide
 
-theorem overU32_for {cfg : TtlConfig} (h : cfg.overU32 = false) (ty : Nat) :
-    (cfg.boundsFor ty).overU32 = false := by
-  unfold TtlConfig.overU32 at h
-  simp only [Bool.or_eq_false_iff, List.any_eq_false] at h
-  rcases boundsFor_cases cfg ty with e | ⟨k, hk⟩
-  · rw [e]; exact h.1
-  · simpa using h.2 _ hk
+/-! #### the stored TTL is the literal clamp to the configured bounds -/
 
-theorem secsU32_of_lt {d : Nat} (h : d < 4294967296 * NS) : secsU32 d = d / NS := by
-  unfold secsU32 U32MAX NS at *
-  split
-  · rfl
-  · omega
-
-theorem bounds_lt_of_not_over {b : Bounds} (h : b.overU32 = false) :
-    b.posMin.getD 0 < 4294967296 * NS ∧ b.posMax.getD (MAX_TTL * NS) < 4294967296 * NS ∧
-    b.negMin.getD 0 < 4294967296 * NS ∧ b.negMax.getD (MAX_TTL * NS) < 4294967296 * NS := by
-  unfold Bounds.overU32 at h
-  simp only [List.any_cons, List.any_nil, Bool.or_false, Bool.or_eq_false_iff] at h
-  obtain ⟨h1, h2, h3, h4⟩ := h
-  have hd : MAX_TTL * NS < 4294967296 * NS := by decide
-  have h0 : 0 < 4294967296 * NS := by decide
-  refine ⟨?_, ?_, ?_, ?_⟩
-  · cases hx : b.posMin with
-    | none => exact h0
-    | some v => simp only [hx, decide_eq_false_iff_not] at h1; simp only [Option.getD_some]; omega
-  · cases hx : b.posMax with
-    | none => exact hd
-    | some v => simp only [hx, decide_eq_false_iff_not] at h2; simp only [Option.getD_some]; omega
-  · cases hx : b.negMin with
-    | none => exact h0
-    | some v => simp only [hx, decide_eq_false_iff_not] at h3; simp only [Option.getD_some]; omega
-  · cases hx : b.negMax with
-    | none => exact hd
-    | some v => simp only [hx, decide_eq_false_iff_not] at h4; simp only [Option.getD_some]; omega
-
-/-- Outside the class, ordered `Duration` bounds give ordered `u32` second bounds. -/
-theorem secsOK_of_not_overU32 {cfg : TtlConfig} (hd : DurOK cfg) (ho : cfg.overU32 = false) :
-    SecsOK cfg := by
-  have key : ∀ b : Bounds, b.durOK = true → b.overU32 = false → b.secsOK = true := by
-    intro b hb hov
-    obtain ⟨l1, l2, _, _⟩ := bounds_lt_of_not_over hov
-    simp only [Bounds.durOK, Bool.and_eq_true, decide_eq_true_eq] at hb
-    simp only [Bounds.secsOK, decide_eq_true_eq, secsU32_of_lt l1, secsU32_of_lt l2]
-    exact Nat.div_le_div_right hb.1
-  unfold DurOK TtlConfig.durOK at hd
-  unfold TtlConfig.overU32 at ho
-  unfold SecsOK TtlConfig.secsOK
-  simp only [Bool.and_eq_true, List.all_eq_true, Bool.or_eq_false_iff, List.any_eq_false] at hd ho ⊢
-  exact ⟨key _ hd.1 ho.1, fun p hp => key _ (hd.2 p hp) (by simpa using ho.2 p hp)⟩
-
-/-- Outside the class the stored TTL is the literal clamp to the configured bounds in whole seconds. -/
-theorem storedTtl_literal {cfg : TtlConfig} (ho : cfg.overU32 = false) (r : Rec) :
-    storedTtl cfg r = clampM r.ttl ((cfg.posBounds r.rtype).1 / NS) ((cfg.posBounds r.rtype).2 / NS) := by
-  obtain ⟨l1, l2, _, _⟩ := bounds_lt_of_not_over (overU32_for ho r.rtype)
-  unfold storedTtl TtlConfig.posBoundsSecs TtlConfig.posBounds
-  simp only [secsU32_of_lt l1, secsU32_of_lt l2]
-
-theorem lifetime_lt_of_not_over {cfg : TtlConfig} (hd : DurOK cfg) (ho : cfg.overU32 = false)
-    (qt : Nat) (r : Res) : lifetime cfg qt r < 4294967296 * NS := by
-  obtain ⟨_, l2, l3, l4⟩ := bounds_lt_of_not_over (overU32_for ho qt)
-  cases r with
-  | other k => simp only [lifetime]; decide
-  | pos m =>
-    have := (posLife_bounds hd qt m).2
-    simp only [lifetime]
-    exact Nat.lt_of_le_of_lt this l2
-  | neg n =>
-    simp only [lifetime, negLife]
-    cases n.negTtl with
-    | none => exact l3
-    | some t => exact Nat.lt_of_le_of_lt (clampM_le _ (negBounds_le hd qt)) l4
-
-/-- **No panic**, in terms of the configuration alone: every bound ordered (`min ≤ max`) and below
-`2^32 s`, any instant up to `2^62 s` after the base: `insert` returns normally. -/
-theorem no_panic_within_u32 {cfg : TtlConfig} (hd : DurOK cfg) (ho : cfg.overU32 = false) (s : State)
-    (q : Query) (r : Res) (t : Nat) (ht : t ≤ 4611686018427387904 * NS) :
-    ∃ s', Cache.insert cfg s q r t = .ok s' := by
-  apply no_panic_partial hd (secsOK_of_not_overU32 hd ho)
-  have := lifetime_lt_of_not_over hd ho q.qtype r
-  unfold INSTANT_LIMIT NS at *
-  omega
-
-/-- every insert of the history happens at most `2^62 s` after the base instant -/
-def TimesSane (ops : List Op) : Prop := ∀ q r t, Op.ins q r t ∈ ops → t ≤ 4611686018427387904 * NS
-
-/-- The two technical hypotheses of the history theorems (`SecsOK`, `Representable`) hold for every
-configuration whose bounds are ordered and below `2^32 s` and every history with sane instants —
-i.e. everywhere outside the known-finding class. -/
-theorem hyps_of_sane {cfg : TtlConfig} (hd : DurOK cfg) (ho : cfg.overU32 = false) {ops : List Op}
-    (ht : TimesSane ops) : SecsOK cfg ∧ Representable cfg ops := by
-  refine ⟨secsOK_of_not_overU32 hd ho, ?_⟩
-  intro q r t hm
-  have h1 := lifetime_lt_of_not_over hd ho q.qtype r
-  have h2 := ht q r t hm
-  unfold INSTANT_LIMIT NS at *
-  omega
-
-/-- `never_stale` with hypotheses on the configuration and the instants only. -/
-theorem never_stale_sane {cfg : TtlConfig} (hd : DurOK cfg) (ho : cfg.overU32 = false) (ops : List Op)
-    (ht : TimesSane ops) (q : Query) (now : Nat) (res : Res)
-    (hg : Cache.get (run cfg [] ops) q now = some res) :
-    ∃ r0 t0, track ops q = some (r0, t0) ∧ Op.ins q r0 t0 ∈ ops ∧
-      now ≤ t0 + lifetime cfg q.qtype r0 :=
-  never_stale hd (hyps_of_sane hd ho ht).1 ops (hyps_of_sane hd ho ht).2 q now res hg
-
-/-- `ttl_exact` with hypotheses on the configuration and the instants only. -/
-theorem ttl_exact_sane {cfg : TtlConfig} (hd : DurOK cfg) (ho : cfg.overU32 = false) (ops : List Op)
-    (ht : TimesSane ops) (hwf : HistWF ops) (q : Query) (now : Nat) (res : Res)
-    (hg : Cache.get (run cfg [] ops) q now = some res) :
-    ∃ r0 t0, track ops q = some (r0, t0) ∧ res = (stored cfg r0).decr (elapsed t0 now) :=
-  ttl_exact hd (hyps_of_sane hd ho ht).1 ops (hyps_of_sane hd ho ht).2 hwf q now res hg
-
-/-- global `positive_max_ttl = 2^33 s` -/
-def cfgBigMax : TtlConfig := { default := { posMax := some (8589934592 * NS) } }
-
-/-- counter-example to the literal reading of "clamped to the configured bounds" inside the class:
-a TTL of 100 000 s lies within `[0, 2^33 s]`, yet it is stored as 86 400. -/
-theorem stored_ttl_counterexample_over_u32 :
-    cfgBigMax.overU32 = true ∧ cfgBigMax.durOK = true ∧ cfgBigMax.secsOK = true ∧
-    storedTtl cfgBigMax { rtype := 1, ttl := 100000, pid := 0 } = 86400 ∧
-    clampM 100000 ((cfgBigMax.posBounds 1).1 / NS) ((cfgBigMax.posBounds 1).2 / NS) = 100000 := by decide
-
-
-/-! ### non-vacuity: the hypotheses are satisfiable and the conclusions are about real answers -/
+/-- For every configuration with ordered bounds and every `u32` TTL, the stored TTL is the TTL
+clamped to the configured positive bounds of the record's type in whole seconds, capped at
+`u32::MAX` (no special case for bounds of 2^32 s or more any longer). -/
+theorem storedTtl_literal {cfg : TtlConfig} (hd : DurOK cfg) (r : Rec) (hr : Rec.WF r) :
+    storedTtl cfg r =
+      min U32MAX (clampM r.ttl ((cfg.posBounds r.rtype).1 / NS) ((cfg.posBounds r.rtype).2 / NS)) := by
+  have h := posBounds_le hd r.rtype
+  have hdiv : (cfg.posBounds r.rtype).1 / NS ≤ (cfg.posBounds r.rtype).2 / NS := Nat.div_le_div_right h
+  unfold storedTtl TtlConfig.posBoundsSecs secsU32 clampM
+  unfold Rec.WF at hr
+  simp only
+  split <;> split <;> omega
 
 /-- per-type override for A (min 10 s, max 60 s), global max 1 h, negative bounds 5 s … 30 s -/
 def cfgEx : TtlConfig :=
@@ -941,11 +860,11 @@ def histEx : List Op :=
   [.ins qA (.pos msgEx) (1 * NS), .ins ⟨1, 16⟩ (.neg negEx) (2 * NS), .ins qA (.other 0) (3 * NS),
    .get qA (4 * NS)]
 
-example : DurOK cfgEx ∧ SecsOK cfgEx := by unfold DurOK SecsOK; decide
-example : Representable cfgEx histEx := by
+example : DurOK cfgEx := by unfold DurOK; decide
+example : TimesSane histEx := by
   intro q r t h
   simp only [histEx, List.mem_cons, Op.ins.injEq, List.mem_nil_iff, reduceCtorEq, or_false] at h
-  rcases h with ⟨rfl, rfl, rfl⟩ | ⟨rfl, rfl, rfl⟩ | ⟨rfl, rfl, rfl⟩ <;> decide
+  rcases h with ⟨rfl, rfl, rfl⟩ | ⟨rfl, rfl, rfl⟩ | ⟨rfl, rfl, rfl⟩ <;> (unfold InstantOK; decide)
 example : HistWF histEx := by
   intro q r t h
   simp only [histEx, List.mem_cons, Op.ins.injEq, List.mem_nil_iff, reduceCtorEq, or_false] at h
@@ -964,14 +883,9 @@ example : (Cache.get (run cfgEx [] histEx) qA (11 * NS)).isSome = true ∧
 example : Cache.get (run cfgEx [] histEx) ⟨1, 16⟩ (32 * NS) =
     some (.neg { negTtl := some 870, soa := some { rtype := 6, ttl := 870, pid := 4 }, rcode := 3 }) ∧
     Cache.get (run cfgEx [] histEx) ⟨1, 16⟩ (32 * NS + 1) = none := by decide
-example : TimesSane histEx := by
-  intro q r t h
-  simp only [histEx, List.mem_cons, Op.ins.injEq, List.mem_nil_iff, reduceCtorEq, or_false] at h
-  rcases h with ⟨rfl, rfl, rfl⟩ | ⟨rfl, rfl, rfl⟩ | ⟨rfl, rfl, rfl⟩ <;> decide
 example : noRefresh qA [.ins ⟨1, 16⟩ (.neg negEx) 5, .ins qA (.other 0) 6, .get qA 7] = true := by decide
 
-example : cfgSecsInverted.overU32 = true ∧ cfgHuge.overU32 = true ∧ cfgEx.overU32 = false := by decide
 example : ∃ s', Cache.insert cfgEx [] qA (.pos msgEx) (5 * NS) = .ok s' :=
-  no_panic_within_u32 (by unfold DurOK; decide) (by decide) _ _ _ _ (by decide)
+  no_panic (by unfold DurOK; decide) _ _ _ _ (by unfold InstantOK; decide)
 
 end HickoryVerif.C15
